@@ -6,7 +6,20 @@ type Chan[T any] struct {
 	cap     int
 	buf     []T
 	closed  bool
-	waiting int // receivers parked on this channel (for rendezvous)
+	waiting int            // receivers parked on this channel (for rendezvous)
+	sendq   []*pendSend[T] // senders parked on this channel (unbuffered: a polling or arriving select may take from them)
+	selRecv []*selReg      // parked selects with a receive case on this channel
+}
+
+type pendSend[T any] struct {
+	v     T
+	taken bool
+}
+
+// selReg is one parked select statement.
+type selReg struct {
+	live   bool // still looking for a partner
+	commit int  // case index a sender handed its value to, -1 if none
 }
 
 // MakeChan mirrors make(chan T, n).
@@ -22,25 +35,101 @@ func MakeChan[T any](n int) *Chan[T] {
 	return c
 }
 
+// receivers counts the parked receivers of an unbuffered channel: plain
+// receives plus parked selects (other than self) with a receive case on it.
+func (c *Chan[T]) receivers(self *selReg) int {
+	n := c.waiting
+	for _, r := range c.selRecv {
+		if r.live && r != self {
+			n++
+		}
+	}
+	return n
+}
+
+// canSend reports whether a send would complete now.
+func (c *Chan[T]) canSend(self *selReg) bool {
+	if c.closed {
+		return true
+	}
+	if c.cap > 0 {
+		return len(c.buf) < c.cap
+	}
+	// unbuffered: rendezvous with a parked receiver
+	return c.receivers(self) > len(c.buf)
+}
+
+// put appends v; on an unbuffered channel a value no plain receiver is
+// parked for is handed to the longest-parked select, which is thereby
+// committed to that case (the sender proceeds as after a completed rendezvous).
+func (c *Chan[T]) put(v T) {
+	c.buf = append(c.buf, v)
+	if c.cap == 0 && c.waiting < len(c.buf) {
+		for _, r := range c.selRecv {
+			if r.live {
+				r.live = false
+				r.commit = c.id
+				break
+			}
+		}
+	}
+}
+
+// canRecv reports whether a receive would complete now.
+func (c *Chan[T]) canRecv() bool {
+	if len(c.buf) > 0 || c.closed {
+		return true
+	}
+	if c.cap == 0 {
+		for _, p := range c.sendq {
+			if !p.taken {
+				return true
+			}
+		}
+	}
+	return false
+}
+
+// take removes the next value (call only when canRecv).
+func (c *Chan[T]) take() (T, bool) {
+	var zero T
+	if len(c.buf) > 0 {
+		v := c.buf[0]
+		c.buf = c.buf[1:]
+		return v, true
+	}
+	if c.cap == 0 {
+		for _, p := range c.sendq {
+			if !p.taken {
+				p.taken = true
+				return p.v, true
+			}
+		}
+	}
+	return zero, false
+}
+
 // Send mirrors ch <- v.
 func (c *Chan[T]) Send(v T) {
 	if c == nil {
 		SchedPoint("send-nil", 0, func() bool { return false })
 	}
-	SchedPoint("send", c.id, func() bool {
-		if c.closed {
-			return true
+	p := &pendSend[T]{v: v}
+	c.sendq = append(c.sendq, p)
+	SchedPoint("send", c.id, func() bool { return p.taken || c.canSend(nil) })
+	for i, q := range c.sendq {
+		if q == p {
+			c.sendq = append(c.sendq[:i], c.sendq[i+1:]...)
+			break
 		}
-		if c.cap > 0 {
-			return len(c.buf) < c.cap
-		}
-		// unbuffered: rendezvous with a parked receiver
-		return c.waiting > len(c.buf)
-	})
+	}
+	if p.taken {
+		return
+	}
 	if c.closed {
 		panic("send on closed channel")
 	}
-	c.buf = append(c.buf, v)
+	c.put(v)
 }
 
 // Recv mirrors <-ch.
@@ -81,5 +170,134 @@ func (c *Chan[T]) Len() int {
 	return len(c.buf)
 }
 
+// LenNoPoint and PutNoPoint serve the virtual timers, which run inside the
+// scheduler and must not be scheduling points themselves.
+func (c *Chan[T]) LenNoPoint() int { return len(c.buf) }
+
+// PutNoPoint appends v without a scheduling point.
+func (c *Chan[T]) PutNoPoint(v T) { c.buf = append(c.buf, v) }
+
+// CloseNoPoint closes the channel without a scheduling point.
+func (c *Chan[T]) CloseNoPoint() { c.closed = true }
+
 // Cap mirrors cap(ch).
 func (c *Chan[T]) Cap() int { return c.cap }
+
+// SelCase is one communication clause of a select statement.
+type SelCase struct {
+	chanID int
+	ready  func(self *selReg) bool
+	fire   func() (interface{}, bool)
+	park   func(self *selReg)
+	unpark func(self *selReg)
+}
+
+// RecvCase mirrors `case v, ok := <-ch`. A nil channel never becomes ready.
+func (c *Chan[T]) RecvCase() SelCase {
+	if c == nil {
+		return SelCase{ready: func(*selReg) bool { return false }}
+	}
+	return SelCase{
+		chanID: c.id,
+		ready:  func(*selReg) bool { return c.canRecv() },
+		fire: func() (interface{}, bool) {
+			v, ok := c.take()
+			return v, ok
+		},
+		park: func(self *selReg) { c.selRecv = append(c.selRecv, self) },
+		unpark: func(self *selReg) {
+			for i, r := range c.selRecv {
+				if r == self {
+					c.selRecv = append(c.selRecv[:i], c.selRecv[i+1:]...)
+					break
+				}
+			}
+		},
+	}
+}
+
+// SendCase mirrors `case ch <- v`. A nil channel never becomes ready.
+func (c *Chan[T]) SendCase(v T) SelCase {
+	if c == nil {
+		return SelCase{ready: func(*selReg) bool { return false }}
+	}
+	return SelCase{
+		chanID: c.id,
+		ready:  func(self *selReg) bool { return c.canSend(self) },
+		fire: func() (interface{}, bool) {
+			if c.closed {
+				panic("send on closed channel")
+			}
+			c.put(v)
+			return nil, false
+		},
+	}
+}
+
+// Select mirrors a select statement: it returns the index of the clause that
+// communicated (-1: the default clause), and for a receive clause the value
+// and the ok flag. Which of several ready clauses is taken is an environment
+// choice (alternative 0: the first ready clause in source order).
+func Select(hasDefault bool, cases ...SelCase) (int, interface{}, bool) {
+	for {
+		self := &selReg{live: !hasDefault, commit: -1}
+		if !hasDefault {
+			for _, c := range cases {
+				if c.park != nil {
+					c.park(self)
+				}
+			}
+		}
+		SchedPoint("select", 0, func() bool {
+			if hasDefault || self.commit >= 0 {
+				return true
+			}
+			for _, c := range cases {
+				if c.ready(self) {
+					return true
+				}
+			}
+			return false
+		})
+		self.live = false
+		if !hasDefault {
+			for _, c := range cases {
+				if c.unpark != nil {
+					c.unpark(self)
+				}
+			}
+		}
+		var ready []int
+		committed := -1
+		for i, c := range cases {
+			if c.ready(self) {
+				if self.commit >= 0 && c.chanID == self.commit && c.park != nil && committed < 0 {
+					committed = i
+				}
+				ready = append(ready, i)
+			}
+		}
+		if len(ready) == 0 {
+			if hasDefault {
+				return -1, nil, false
+			}
+			// the value handed to this select was taken by somebody else
+			continue
+		}
+		i := committed
+		if i < 0 {
+			i = ready[Choose("select-case", len(ready))]
+		}
+		v, ok := cases[i].fire()
+		return i, v, ok
+	}
+}
+
+// As converts the value Select returned for a receive clause on ch.
+func As[T any](ch *Chan[T], v interface{}) T {
+	if v == nil {
+		var zero T
+		return zero
+	}
+	return v.(T)
+}
